@@ -146,6 +146,18 @@ def errwf_scan(prog):
             nsites += 1
             src = byname.get(i['x'].get('name')) if i['x'].get('k') == 'reg' else None
             if src and src['op'] == 'Alloc': continue
+            if src and src['op'] == 'UnOp' and src.get('unop') == '*' and isinstance(src.get('x'), dict) and src['x'].get('k') == 'global':
+                # a package variable of pointer type: fine when every store to it anywhere in the module stores a fresh allocation
+                gname = src['x']['name']; stores = []
+                for n2, f2 in prog.funcs.items():
+                    if not f2.blocks: continue
+                    by2 = {j['name']: j for b2 in f2.blocks for j in b2['instrs'] if j.get('name')}
+                    for b2 in f2.blocks:
+                        for j in b2['instrs']:
+                            if j['op'] == 'Store' and isinstance(j.get('addr'), dict) and j['addr'].get('k') == 'global' and j['addr'].get('name') == gname:
+                                v = by2.get(j['val'].get('name')) if isinstance(j.get('val'), dict) else None
+                                stores.append(bool(v and v['op'] == 'Alloc'))
+                if stores and all(stores): continue
             users = [j for j in ins_all if j is not i and j['op'] != 'DebugRef' and i['name'] in regs({a: b for a, b in j.items() if a != 'name'}, [])]
             if users and all(j['op'] == 'BinOp' and j.get('binop') in ('==', '!=') for j in users): continue
             bad.append('%s: operand %s of type %s is not a fresh allocation and the value escapes (%s)' % (sn, i['x'].get('name'), i['x'].get('type'), i.get('pos')))
